@@ -8,7 +8,7 @@ from harness.ledger import same_term
 
 PROPERTY = "C10"
 ASSUMPTIONS = [
-    "base learners are recording stubs (same __name__ as T_HOO / HCT / VHCT); rewards are unconstrained solver variables; POO's control flow does not depend on rewards except inside get_last_point, which is queried once at the end (every outcome of its arg-max is explored in the short runs; the long runs confine the rewards of learner i to the band [i, i+1/2] so that the arg-max has one feasible outcome)",
+    "base learners are recording stubs (same __name__ as T_HOO / HCT / VHCT); rewards are unconstrained solver variables; POO's control flow does not depend on rewards except inside get_last_point, which is queried at the end of every run and, in the query-window runs, after three consecutive rounds t-2, t-1, t for every t of a window (every outcome of its arg-max is explored in the short runs; the long runs confine the rewards of learner i to the band [i, i+1/2] so that the arg-max has one feasible outcome)",
     "the rho grid: a learner's rho must equal rhomax^(2N/(2i+1)) for some power of two N >= 2 and 0 <= i < N, lie in (0, rhomax) and differ from every other learner's",
     "only rhomax for which POO starts (>= 0.84): smaller values are the recorded finding F-poo-rhomax of C01",
 ]
@@ -37,6 +37,13 @@ def configs(tier, seed):
         for R in budgets:
             out.append({"name": "route-budget%d-T_HOO-rhomax%s" % (R, rm), "algo": "POO", "part": "B", "d": 1, "mode": "banded", "T": min(R, 130),
                         "params": {"rhomax": rm, "base": "T_HOO", "rounds": R}, "cost": 10})
+    # 'at every moment get_last_point is the next proposal of a learner with the highest score': three consecutive queries
+    # (after rounds t-2, t-1, t; free rewards, so every outcome of each arg-max is explored) for every t of the window; a
+    # recommendation remembered from an earlier query, or a query that disturbs the routing, shows here (seed S-C10-7)
+    for rm, top in ((0.9, 26 if q == 0 else 44), (0.84, 34 if q == 0 else 60), (0.95, 9)):
+        for t in range(2, top + 1):
+            out.append({"name": "route-query%d-T_HOO-rhomax%s" % (t, rm), "algo": "POO", "part": "B", "d": 1, "mode": "free", "T": t, "queries": [t - 2, t - 1],
+                        "params": {"rhomax": rm, "base": "T_HOO"}, "cost": 10})
     out.extend(inductive_configs(tier))
     out.append({"name": "twin-POO", "algo": "POO", "part": "B", "d": 1, "mode": "free", "T": 6, "params": {"rhomax": 0.9, "base": "T_HOO"}, "twin": True, "expect_fail": "twin"})
     return out
@@ -103,20 +110,25 @@ def run(ctx, cfg):
             ctx.check("route:count", algo.Times[L.idx] == len(rs), "round %d learner %d: Times=%s, %d rewards delivered" % (t, L.idx, algo.Times[L.idx], len(rs)))
             if rs:
                 ctx.check_eq("route:score_is_mean", algo.V_reward[L.idx], mean_of(rs), "round %d learner %d: score != mean of its %d rewards" % (t, L.idx, len(rs)))
-    # recommendation
+        if t in cfg.get("queries", ()):
+            recommendation(ctx, algo, learners, served, "after round %d: " % t)
+    recommendation(ctx, algo, learners, served, "")
+    if cfg.get("twin"):
+        ctx.check_eq("twin", algo.V_reward[0], 0, "reachability witness: deliberately false")
+
+
+def recommendation(ctx, algo, learners, served, when):
     pb = [len(L.pulls) for L in learners]
     ok, lp = ctx.soft_call(algo.get_last_point)
     if ok:
         who = [L for i, L in enumerate(learners) if len(L.pulls) > pb[i] and L.pulls[-1][2] is lp]
         if len(who) != 1:
-            ctx.fail("route:recommendation_from_a_learner", "get_last_point is not the next proposal of exactly one learner")
+            ctx.fail("route:recommendation_from_a_learner", when + "get_last_point is not the next proposal of exactly one learner")
         else:
             sc = lambda L: mean_of(served[L.idx]) if served.get(L.idx) else 0
             for L in learners:
                 if L is not who[0]:
-                    ctx.check_ge("route:recommends_best_score", sc(who[0]), sc(L), "learner %d has a higher mean than the recommending learner %d" % (L.idx, who[0].idx))
-    if cfg.get("twin"):
-        ctx.check_eq("twin", algo.V_reward[0], 0, "reachability witness: deliberately false")
+                    ctx.check_ge("route:recommends_best_score", sc(who[0]), sc(L), when + "learner %d has a higher mean than the recommending learner %d" % (L.idx, who[0].idx))
 
 
 # ---------------------------------------------------------------------------------------------
